@@ -516,6 +516,13 @@ func (s *shard) WriteRows(rows []influx.Row, binaryRows []byte) error {
 
 	s.mu.RLock()
 	defer s.mu.RUnlock()
+	// Close sets the closing flag and then takes s.mu exclusively for its whole duration; the
+	// owner closes the index only after that. A writer that passed the check above just before
+	// Close began and gets the lock only after Close released it must not go on: it would write
+	// into an index and a WAL that are already closed.
+	if s.isClosing() {
+		return errno.NewError(errno.ErrShardClosed, s.ident.ShardID)
+	}
 	defer s.markBeingWritten()()
 
 	var err error
@@ -633,6 +640,9 @@ func (s *shard) WriteCols(mst string, cols *record.Record, binaryCols []byte) er
 
 	s.mu.RLock()
 	defer s.mu.RUnlock()
+	if s.isClosing() { // see WriteRows
+		return errno.NewError(errno.ErrShardClosed, s.ident.ShardID)
+	}
 	if err := s.storage.WriteCols(s, cols, mst, binaryCols); err != nil {
 		log.Error("write buffer failed", zap.Error(err))
 		atomic.AddInt64(&statistics.PerfStat.WriteReqErrors, 1)
